@@ -129,24 +129,10 @@ def _worker(args):
         if target_sig is not None and shrink_state['seen'] > shrink_state['budget']:
             return
         case = json.loads(canon(case))
-        try:
-            annotate(case)
-            res = mod.check(case)
-        except Exception as e:
-            # an exception raised inside the program under test (innermost frame in the repository) is a failure of
-            # the property being checked (the program must not raise for inputs it accepted); anything else is a
-            # bug of the harness and is reported as such (exit 2), never as a violation
-            tb = traceback.extract_tb(e.__traceback__)
-            repo = os.environ.get('PV_REPO', '/repo')
-            inner = tb[-1] if tb else None
-            prog = [f for f in tb if os.path.realpath(f.filename).startswith(os.path.realpath(repo) + os.sep)]
-            if prog and inner is not None and os.path.realpath(inner.filename).startswith(os.path.realpath(repo) + os.sep):
-                res = Result(fails=[('program-exception:%s@%s' % (type(e).__name__, inner.name),
-                                     '%s in %s line %d: %s' % (type(e).__name__, inner.name, inner.lineno, str(e)[:200]))],
-                             nontrivial=True)
-            else:
-                st['error'] = 'exception in the harness:\n' + traceback.format_exc()[-2500:]
-                return
+        res, herr = evaluate(mod, case)
+        if herr:
+            st['error'] = herr
+            return
         st['evaluations'] += 1
         if res.skipped:
             st['skipped'][res.skipped] += 1
@@ -203,14 +189,41 @@ def replay_files(prop_id):
     return sorted(glob.glob(os.path.join(ROOT, 'replays', prop_id, '*.json')))
 
 
+def evaluate(mod, case):
+    """run mod.check(case); returns (Result, None) or (None, text of a harness error).  An exception raised inside
+    the program under test (innermost frame in the repository) is a failure of the property being checked (the
+    program must not raise for inputs it accepted); a pv.build.Rejected that no check handled means that the program
+    answered a VARIANT of a description it had accepted with a diagnostic; anything else is a bug of the harness
+    and is reported as such (exit 2), never as a violation"""
+    try:
+        annotate(case)
+        return mod.check(case), None
+    except Exception as e:
+        tb = traceback.extract_tb(e.__traceback__)
+        repo = os.environ.get('PV_REPO', '/repo')
+        inner = tb[-1] if tb else None
+        prog = [f for f in tb if os.path.realpath(f.filename).startswith(os.path.realpath(repo) + os.sep)]
+        if prog and inner is not None and os.path.realpath(inner.filename).startswith(os.path.realpath(repo) + os.sep):
+            return Result(fails=[('program-exception:%s@%s' % (type(e).__name__, inner.name),
+                                  '%s in %s line %d: %s' % (type(e).__name__, inner.name, inner.lineno, str(e)[:200]))],
+                          nontrivial=True), None
+        if type(e).__name__ == 'Rejected' and inner is not None and inner.name == 'model':
+            import re as _re
+            return Result(fails=[('variant-of-accepted-model-rejected:' + _re.sub(r'[0-9.+-]+', '#', str(e))[:40].strip(),
+                                  'the program rejects a variant of a model it accepted: %s' % str(e)[:300])], nontrivial=True), None
+        return None, 'exception in the harness:\n' + traceback.format_exc()[-2500:]
+
+
 def run_replay(prop_id, path):
     mod = importlib.import_module('pv.props.' + prop_id.lower())
     case = json.load(open(path))
     if isinstance(case, dict) and 'case' in case and 'property' in case:
         case = case['case']
     case = json.loads(canon(case))
-    annotate(case)
-    res = mod.check(case)
+    res, herr = evaluate(mod, case)
+    if herr:
+        print('HARNESS ERROR: ' + herr, file=sys.stderr)
+        sys.exit(2)
     return case, res
 
 
